@@ -46,7 +46,7 @@ def _worker(args):
         sc = scs[name]
         res = harness.run_symbolic(sc, tier)
         res["canary"] = sc.canary
-        res["relaxed"] = bool(getattr(sc, "relax_int", False))
+        res["relaxed"] = bool(getattr(sc, "relax_int", False)) or getattr(sc, "round_mode", "exact") == "uf"  # over-approximations: refutations / path witnesses are candidates
         res["expect_outcomes"] = list(sc.expect_outcomes)
         res["entry"] = list(sc.entry)
         res["params"] = {k: str(v) for k, v in sc.params.items()}
@@ -102,7 +102,7 @@ def _worker(args):
                     if ok:
                         valid = {o["name"] for o in p["obligations"] if o["status"] == "valid"}
                         notvalid = {o["name"] for o in p["obligations"] if o["status"] != "valid"}
-                        bad = [f for f in out["failed"] if f in valid and f not in notvalid]
+                        bad = [f for f in out["failed"] if f in valid and f not in notvalid and not (res["relaxed"] and f.startswith("CANARY"))]
                         if bad:
                             ok, why = False, f"checks proved valid fail concretely: {bad}"
                 # witness-only checks (code that no proxy can enter): a concrete failure on a solver-chosen model
